@@ -63,7 +63,7 @@ ASSUMPTIONS = [
     "repository.update_* is what the given repository_path returns, and where files are written",
     "create.populate() needs ~130 genuine OpenADAS files / network access and is not driven",
 ]
-QUICK = dict(cases=150, workers=2, timecap=45)
+QUICK = dict(cases=120, workers=2, timecap=40)
 THOROUGH = dict(cases=15000, workers=16, timecap=600)
 REQUIRED = {"readback": 1500, "others_untouched": 10000, "never_written": 10000, "alias_read": 3000,
             "audit_write_open": 1500, "audit_mkdir": 1500, "home_clean": 100, "rejected_update": 100,
